@@ -456,44 +456,46 @@ CloseCore ==
 Post == [dbo |-> dbOffset', rst |-> rst', qlen |-> Len(queue'), qoff |-> qOff', cinfo |-> cinfo',
          txapp |-> tx'.app, txoff |-> tx'.off, dbapp |-> dbC'.app, dboff |-> dbC'.off]
 
-DoWrite(w, s) == DoWriteCore(w, s) /\ hist' = Record([a |-> "DoWrite", w |-> w, svc |-> s])
-DoWriteLazy(w, s) == DoWriteLazyCore(w, s) /\ hist' = Record([a |-> "DoWriteLazy", w |-> w, svc |-> s])
-DoNowBegin(w, s) == DoNowBeginCore(w, s) /\ hist' = Record([a |-> "DoNowBegin", w |-> w, svc |-> s])
-DoQueue(w) == DoQueueCore(w) /\ hist' = Record([a |-> "DoQueue", w |-> w])
-DoNowFinish(w) == DoNowFinishCore(w) /\ hist' = Record([a |-> "DoNowFinish", w |-> w])
-DoWriteFail(w) == DoWriteFailCore(w) /\ hist' = Record([a |-> "DoWriteFail", w |-> w])
-DoWriteReplica(w) == DoWriteReplicaCore(w) /\ hist' = Record([a |-> "DoWriteReplica", w |-> w, post |-> Post])
-DoRead == DoReadCore /\ hist' = Record([a |-> "DoRead"])
-ViewA(r) == ViewCore(r) /\ hist' = Record([a |-> "View", r |-> r])
-TxCommit == TxCommitCore /\ hist' = Record([a |-> "TxCommit"])
-BlWrite == BlWriteCore /\ hist' = Record([a |-> "BlWrite"])
-BlSync == BlSyncCore /\ hist' = Record([a |-> "BlSync"])
-BlCommit == BlCommitCore /\ hist' = Record([a |-> "BlCommit"])
-ExtAppend(w, s) == ExtAppendCore(w, s) /\ hist' = Record([a |-> "ExtAppend", w |-> w, svc |-> s])
-ReadApply(n, el) == ReadApplyCore(n, el)
+\* bound on the behaviour length (export only); inside the actions so that TLC's coverage is per action
+Bound == MaxOps > 0 => Len(hist) < MaxOps
+
+DoWrite(w, s) == Bound /\ DoWriteCore(w, s) /\ hist' = Record([a |-> "DoWrite", w |-> w, svc |-> s])
+DoWriteLazy(w, s) == Bound /\ DoWriteLazyCore(w, s) /\ hist' = Record([a |-> "DoWriteLazy", w |-> w, svc |-> s])
+DoNowBegin(w, s) == Bound /\ DoNowBeginCore(w, s) /\ hist' = Record([a |-> "DoNowBegin", w |-> w, svc |-> s])
+DoQueue(w) == Bound /\ DoQueueCore(w) /\ hist' = Record([a |-> "DoQueue", w |-> w])
+DoNowFinish(w) == Bound /\ DoNowFinishCore(w) /\ hist' = Record([a |-> "DoNowFinish", w |-> w])
+DoWriteFail(w) == Bound /\ DoWriteFailCore(w) /\ hist' = Record([a |-> "DoWriteFail", w |-> w])
+DoWriteReplica(w) == Bound /\ DoWriteReplicaCore(w) /\ hist' = Record([a |-> "DoWriteReplica", w |-> w, post |-> Post])
+DoRead == Bound /\ DoReadCore /\ hist' = Record([a |-> "DoRead"])
+ViewA(r) == Bound /\ ViewCore(r) /\ hist' = Record([a |-> "View", r |-> r])
+TxCommit == Bound /\ TxCommitCore /\ hist' = Record([a |-> "TxCommit"])
+BlWrite == Bound /\ BlWriteCore /\ hist' = Record([a |-> "BlWrite"])
+BlSync == Bound /\ BlSyncCore /\ hist' = Record([a |-> "BlSync"])
+BlCommit == Bound /\ BlCommitCore /\ hist' = Record([a |-> "BlCommit"])
+ExtAppend(w, s) == Bound /\ ExtAppendCore(w, s) /\ hist' = Record([a |-> "ExtAppend", w |-> w, svc |-> s])
+ReadApply(n, el) == Bound /\ ReadApplyCore(n, el)
                     /\ hist' = Record([a |-> "Apply", ids |-> IdsOf(SubSeq(blog, rpos + 1, rpos + n)),
                                        szs |-> [i \in 1..n |-> blog[rpos + i].sz], elapsed |-> el, post |-> Post])
-ReadSkip == ReadSkipCore /\ hist' = Record([a |-> "Skip", n |-> blog[rpos + 1].sz, post |-> Post])
-ReadCommit == rcommit # rpos /\ ReadCommitCore /\ hist' = Record([a |-> "Commit", off |-> EndOff(blog, rpos), post |-> Post])
-ReadCommitLow(k) == ReadCommitLowCore(k) /\ hist' = Record([a |-> "Commit", off |-> EndOff(blog, k), post |-> Post])
-ReplayDone == ReplayDoneCore /\ hist' = Record([a |-> "ReplayDone"])
-Desync(k) == DesyncCore(k) /\ hist' = Record([a |-> "Desync", off |-> EndOff(blog, k), post |-> Post])
-Crash == CrashCore /\ hist' = Record([a |-> "Crash"])
-Restart == RestartCore /\ hist' = Record([a |-> "Restart", post |-> Post])
-Close == CloseCore /\ hist' = Record([a |-> "Close"])
+ReadSkip == Bound /\ ReadSkipCore /\ hist' = Record([a |-> "Skip", n |-> blog[rpos + 1].sz, post |-> Post])
+ReadCommit == Bound /\ rcommit # rpos /\ ReadCommitCore /\ hist' = Record([a |-> "Commit", off |-> EndOff(blog, rpos), post |-> Post])
+ReadCommitLow(k) == Bound /\ ReadCommitLowCore(k) /\ hist' = Record([a |-> "Commit", off |-> EndOff(blog, k), post |-> Post])
+ReplayDone == Bound /\ ReplayDoneCore /\ hist' = Record([a |-> "ReplayDone"])
+Desync(k) == Bound /\ DesyncCore(k) /\ hist' = Record([a |-> "Desync", off |-> EndOff(blog, k), post |-> Post])
+Crash == Bound /\ CrashCore /\ hist' = Record([a |-> "Crash"])
+Restart == Bound /\ RestartCore /\ hist' = Record([a |-> "Restart", post |-> Post])
+Close == Bound /\ CloseCore /\ hist' = Record([a |-> "Close"])
 
 Svc == {0} \cup SvcSizes
 
-Next == /\ (MaxOps > 0 => Len(hist) < MaxOps)
-        /\ \/ \E w \in Writes, s \in Svc : DoWrite(w, s) \/ DoWriteLazy(w, s) \/ DoNowBegin(w, s) \/ ExtAppend(w, s)
-           \/ \E w \in Writes : DoQueue(w) \/ DoNowFinish(w) \/ DoWriteFail(w) \/ DoWriteReplica(w)
-           \/ DoRead
-           \/ \E r \in Readers : ViewA(r)
-           \/ TxCommit \/ BlWrite \/ BlSync \/ BlCommit
-           \/ \E n \in 1..Cardinality(Writes), el \in BOOLEAN : ReadApply(n, el)
-           \/ ReadSkip \/ ReadCommit \/ ReplayDone
-           \/ \E k \in 1..Len(blog) : Desync(k) \/ ReadCommitLow(k)
-           \/ Crash \/ Restart \/ Close
+Next == \/ \E w \in Writes, s \in Svc : DoWrite(w, s) \/ DoWriteLazy(w, s) \/ DoNowBegin(w, s) \/ ExtAppend(w, s)
+        \/ \E w \in Writes : DoQueue(w) \/ DoNowFinish(w) \/ DoWriteFail(w) \/ DoWriteReplica(w)
+        \/ DoRead
+        \/ \E r \in Readers : ViewA(r)
+        \/ TxCommit \/ BlWrite \/ BlSync \/ BlCommit
+        \/ \E n \in 1..Cardinality(Writes), el \in BOOLEAN : ReadApply(n, el)
+        \/ ReadSkip \/ ReadCommit \/ ReplayDone
+        \/ \E k \in 1..Len(blog) : Desync(k) \/ ReadCommitLow(k)
+        \/ Crash \/ Restart \/ Close
 
 Spec == Init /\ [][Next]_vars
 \* the binlog writer keeps running (for the liveness property below)
